@@ -102,7 +102,7 @@ theorem parseHeadersLoop_too_many_state (pre : List FieldS) (f : FieldS) (post :
     ∀ (fuel : Nat) (rest : List Item) (mh : Nat) (acc : Headers),
     (∀ g ∈ pre ++ f :: post, g.WF Consts.maxLineLen) → pre.length < fuel →
     acc.length + pre.length = mh → mh ≤ Headers.maxSize →
-    parseHeadersLoop flatSrc fuel (bytesI (renderFields (pre ++ f :: post) ++ [13, 10]) ++ rest) mh acc =
+    parseHeadersLoop flatSrc fuel (bytesI (renderFields (pre ++ f :: post) ++ [13, 10]) ++ rest) mh acc.length acc =
       (.err .header, bytesI (renderFields post ++ [13, 10]) ++ rest) := by
   induction pre with
   | nil =>
@@ -139,6 +139,8 @@ theorem parseHeadersLoop_too_many_state (pre : List FieldS) (f : FieldS) (post :
       simp only [g.line_ne_nil, if_false, Headers.len, parseFieldLine_wf g hgw]
       rw [if_neg (by omega), full_of_lt acc _ (by omega)]
       simp only [Bool.false_eq_true, if_false, Headers.append]
+      have hl : acc.length + 1 = (acc ++ [(lowerBytes g.name, g.value.map lfToSp)]).length := by simp
+      rw [hl]
       exact ih fuel rest mh (acc ++ [(lowerBytes g.name, g.value.map lfToSp)])
         (fun x hx => hwf x (List.mem_cons_of_mem g hx)) (by omega) (by simp; omega) hcap
 
@@ -162,6 +164,7 @@ theorem head_too_many_state (h : HeadS) (hwf : h.WF Consts.maxLineLen) (rest : L
     (by rw [← hsplit]; exact hwf.2.2.2.2.2.2.2.2.2)
     (by have := renderFields_length h.fields; simp [headFuel]; omega) (by simp [hlen]) hcap
   rw [← hsplit] at this
+  simp only [List.length_nil] at this
   rw [this]
 
 end Atto
